@@ -1,6 +1,6 @@
 """Verdict logic of one check (DESIGN.md section 5): obligations, disagreements, monitors, search,
 VIOLATION / KNOWN-FINDING lines, replay files, evidence."""
-import hashlib, json, os, random, re, sys, time
+import re, hashlib, json, os, random, re, sys, time
 from . import core
 from .core import InfraError, VERIF, WORK
 
@@ -138,7 +138,7 @@ def finish(rep, checker_cmd, rule, extra_cov=None):
         status = 1
     print("%s %s: %d obligations (%d discharged), %d cases, %d distinct non-trivial, %d known findings, %.1fs -> %s" % (
         rep.pid, rep.tier, len(rep.obligations), discharged, rep.evaluations, len(rep.distinct), len(rep.known_hits),
-        time.time() - rep.t0, "OK" if status == 0 else "VIOLATION"))
+        time.time() - rep.t0, ("OK" if status == 0 else "VIOLATION") + (" (black-box mode: the harness does not build against this tree; see notes in the evidence)" if getattr(rep, "blackbox", False) else "")))
     return status
 
 
@@ -254,9 +254,132 @@ def lean_obligations(rep, pid, tier):
 # one correspondence stream
 
 
+LOCATED = re.compile(r"^Line (\d+), Column (\d+) :: .+$")
+
+
+def blackbox_stream(rep, repo, name, cases):
+    """Black-box mode (the harness does not build against this tree): the hist cases of the stream are run through
+    the real binary — one text as the argument, two as preload file + argument, more as prompt lines — and stdout is
+    compared line by line with the executable model's prediction: printed values exactly, diagnostics by their
+    `Line l, Column c :: ` prefix (the line number only where the mode preserves it)."""
+    from . import front
+    import concurrent.futures
+    key = core.repo_key(repo)
+    d = os.path.join(WORK, "%s-%s-%s-bb" % (rep.pid, key, rep.tier))
+    os.makedirs(d, exist_ok=True)
+    cpath = os.path.join(d, name + ".cases")
+    lines = [c for c in cases if c.startswith("hist ") and len(c) < 20000]
+    cap = 1200 if rep.tier == "quick" else 12000
+    if len(lines) > cap:
+        step = len(lines) / float(cap)
+        lines = [lines[int(i * step)] for i in range(cap)]
+    with open(cpath, "w") as f:
+        for c in lines:
+            f.write(c + "\n")
+    rep._cpath = cpath
+    if not lines:
+        return {}, {}, [], {}, cpath
+    core.run_model(cpath, os.path.join(d, name + ".model"))
+    b = core.read_obs(os.path.join(d, name + ".model"))
+    ctx = dict(repo=repo, rep=rep)
+    banner, goodbye = front.framing(ctx)
+
+    def plan(c):
+        p = c.split(" ")
+        cid, tab, texts = p[1], int(p[2]), [core.unhx(t) for t in p[3:]]
+        obs = b.get(cid) or []
+        if any(l.split(" ")[0] in ("PANIC", "fuel") or " fuel" in l for l in obs):
+            return None
+        if any("\x00" in t for t in texts):
+            return None
+        if len(texts) == 1:
+            return cid, dict(id=cid, tab=tab, file=None, expr=texts[0], stdin=None), obs, True
+        if len(texts) == 2:
+            return cid, dict(id=cid, tab=tab, file=texts[0], expr=texts[1], stdin=None), obs, True
+        # prompt mode: every text must be accepted by the model (then line-by-line processing reads the same statements)
+        if any(len(l.split(" ")) > 1 and l.split(" ")[1] in ("parseerr", "scanerr") for l in obs):
+            return None
+        ls = []
+        for t in texts:
+            for l in (t[:-1] if t.endswith("\n") else t).split("\n"):
+                if l.strip().lower() == "exit" or "\r" in l:
+                    return None
+                ls.append(l)
+        return cid, dict(id=cid, tab=tab, file=None, expr=None, stdin=ls, end=None, after=[]), obs, False
+
+    def expected(obs):
+        exp = []
+        for l in obs:
+            p = l.split(" ")
+            if len(p) < 2 or l.startswith("MON "):
+                continue
+            if p[1] in ("scanerr", "parseerr"):
+                lc = (p[2], p[3]) if p[1] == "scanerr" else (p[3], p[4])
+                exp.append(("diag", lc))
+            elif p[1][:1] == "O" and len(p) > 2:
+                if p[2] == "val":
+                    exp.append(("text", core.unhx(p[-1][5:])))
+                elif p[2] == "err":
+                    exp.append(("diag", (p[4], p[5])))
+        return exp
+
+    def judge(item):
+        cid, s, obs, keep_lines = item
+        rc, so, se = front.run_binary(ctx, s)
+        out = so
+        if s["expr"] is None:
+            if not out.startswith(banner + "\n") or not out.endswith(goodbye + "\n"):
+                return cid, s, "the prompt session is not framed by its banner and goodbye lines", so
+            out = out[len(banner) + 1: len(out) - len(goodbye) - 1]
+        if rc != 0:
+            return cid, s, "exit status %d" % rc, so
+        pos = 0
+        for kind, v in expected(obs):
+            if kind == "text":
+                if not out.startswith(v, pos):
+                    return cid, s, "expected the printed value %r at offset %d" % (v[:80], pos), so
+                pos += len(v)
+            else:
+                e = out.find("\n", pos)
+                line = out[pos:e] if e >= 0 else out[pos:]
+                m = LOCATED.match(line)
+                if not m:
+                    return cid, s, "expected one located diagnostic line, got %r" % line[:120], so
+                if v[1] not in ("-", m.group(2)) or (keep_lines and v[0] not in ("-", m.group(1))):
+                    return cid, s, "diagnostic at line %s column %s, the model gives line %s column %s" % (m.group(1), m.group(2), v[0], v[1]), so
+                pos = e + 1 if e >= 0 else len(out)
+        if pos != len(out):
+            return cid, s, "output the model does not predict: %r" % out[pos:pos + 120], so
+        return None
+
+    items = [x for x in (plan(c) for c in lines) if x]
+    bad = 0
+    with concurrent.futures.ThreadPoolExecutor(max_workers=12) as ex:
+        for r in ex.map(judge, items):
+            if r:
+                bad += 1
+                if bad <= 3:
+                    cid, s, why, so = r
+                    rep.violation("black-box %s: the binary and the model disagree on %s: %s" % (name, front.describe(s)[:500], why), case=front.json_case(s),
+                                  impl=dict(stdout=so[:3000]), model=b.get(cid), stream=name,
+                                  oracle="black-box mode: printed values byte for byte, diagnostics by line and column, nothing else printed")
+    rep.evaluations += len(items)
+    rep.streams[name] = dict(cases=len(items), impl_s=0, model_s=0, disagreements=bad, numeric_within_4ulp=0, incidents=0)
+    rep.oblige("black-box stream %s: binary stdout = model prediction on %d of the property's programs" % (name, len(items)), bad == 0, "%d disagreements" % bad)
+    for cid, lines_ in b.items():
+        rep.distinct.add(hash(tuple(lines_)))
+    return {}, b, [], {}, cpath
+
+
 def run_stream(rep, repo, name, cases, project=None, stall_s=20, keep_lines=None, impl_only=False):
     """Run `cases` (iterable of case lines) on both executors.  Returns (impl_obs, model_obs, incidents,
     case_by_id).  `project(line) -> str|None` selects / reduces the observables the property is about."""
+    if getattr(rep, "blackbox", False):
+        if impl_only:
+            for _ in cases:     # streams judged on the in-process implementation alone have no black-box counterpart
+                pass
+            return {}, {}, [], {}, None
+        return blackbox_stream(rep, repo, name, cases)
     # one working directory per property, tree and tier, so that checks of different trees (./selftest) or tiers can
     # run side by side
     key = core.repo_key(repo)
